@@ -378,7 +378,8 @@ def kept_lines(raw_lines):
             dropped[c] += 1
         else:
             kept[c] += 1
-    pedals = collections.Counter(c[2] for c in (classify_line(r) for r in uniq) if c is not None and c[0] == "pedal")
+    # pedal lines are events of a stream: an identical line is another event (a pedal may report a value twice in a tick)
+    pedals = collections.Counter(c[2] for c in (classify_line(r) for r in raw_lines if r != "") if c is not None and c[0] == "pedal")
     return kept, dropped, {"textual_duplicates": n_textual, "pedals": pedals,
                            "dup_sids": sorted(s for s, k in sid_count.items() if k > 1),
                            "dup_pids": sorted(p for p, k in pid_count.items() if k > 1)}
